@@ -51,7 +51,9 @@ def netlist_tree(c):
         mods["F%d" % k] = {"fixed": True, "rectangles": [D.rect_entry(r, unit) for r in rl]}
     for m in c["modules"]:
         d = {}
-        if m["kind"] == "hard":
+        if m["kind"] == "hard" and m.get("released"):
+            d["fixed"] = True  # declared fixed, released through Module.is_fixed = False before the die is built
+        elif m["kind"] == "hard":
             d["hard"] = True
         else:
             d["area"] = X.num(m["area"] * u * u)
@@ -66,6 +68,13 @@ def netlist_tree(c):
     return {"Modules": mods, "Nets": []}
 
 
+def release(nl, c):
+    """modules declared fixed in the document and released through the setter before the die is built"""
+    for m in c["modules"]:
+        if m.get("released"):
+            nl.get_module(m["name"]).is_fixed = False
+
+
 def dist(a, b):
     dx = max(a[0] - b[2], b[0] - a[2], 0)
     dy = max(a[1] - b[3], b[1] - a[3], 0)
@@ -77,17 +86,22 @@ def run_alloc(c):
     unit = dc["unit"]
     u = Fr(unit)
     tree, dtree = netlist_tree(c), D.die_tree(dc)
+
     try:
         nl = Netlist(tree)
+        release(nl, c)
         die = Die(dtree, nl)
     except Exception as e:
-        raise RuntimeError("generator produced a design that is rejected: %s: %s\n%s" % (type(e).__name__, e, c))
+        # the generated designs are compatible by construction (fixed modules on free die area, everything else movable); on the
+        # unchanged tree none is ever rejected.  Without a die there is no initial allocation at all.
+        raise Violation("a compatible netlist and die cannot be loaded: %s: %s\n%s" % (type(e).__name__, e, c), "design-rejected")
     if c.get("reuse"):
         # the same parsed descriptions are used again (e.g. one netlist per die refinement): the second design is the design
         if tree != netlist_tree(c) or dtree != D.die_tree(dc):
             raise Violation("loading the design altered the caller's description: netlist now %r" % (tree,), "description-altered")
         try:
             nl = Netlist(tree)
+            release(nl, c)
             die = Die(dtree, nl)
         except Exception as e:
             raise Violation("the same descriptions are rejected when loaded a second time: %s: %s" % (type(e).__name__, e), "second-load-rejected")
@@ -207,6 +221,8 @@ def run_alloc(c):
         if abs(Fr(alloc.area("F%d" % k)) - own) > atol:
             raise Violation("area(F%d) = %r, its rectangles have area %s" % (k, alloc.area("F%d" % k), float(own)), "fixed-area")
     cls = ["descriptions-loaded-twice"] if c.get("reuse") else []
+    if any(m.get("released") for m in c["modules"]):
+        cls.append("fixed-module-released-before-the-die-was-built")
     if dc["fixed"]:
         cls.append("with-fixed")
     if ref:
@@ -270,6 +286,9 @@ def case_s(draw):
             m["rects"] = [list(r) for r in rs]
             m["area"] = sum((r[2] - r[0]) * (r[3] - r[1]) for r in rs)
         mods.append(m)
+    for m in mods:
+        if m["kind"] == "hard" and draw(_i(0, 3)) == 0:
+            m["released"] = True
     moves = {m["name"]: [draw(_i(-3, 3)), draw(_i(-3, 3))] for m in mods if m["kind"] == "hard" and draw(st.booleans())}
     return dict(die=dc, refine=ref, modules=mods, include_zero=draw(st.booleans()), fixed_last=draw(st.booleans()),
                 moves=moves, alloc_before_move=draw(st.booleans()), reuse=draw(st.booleans()))
@@ -278,4 +297,4 @@ def case_s(draw):
 def subchecks():
     return [Sub("designs", run_alloc, strategy=case_s(), n_quick=5000, n_thorough=120000, fuzz_thorough=2500,
                 required=("with-fixed", "refined-split", "refined-grid", "include-zero", "square-from-centre", "hard-module",
-                          "sticks-out", "overlaps-fixed-cell", "covers-a-cell-completely", "tiny-die", "hard-module-recentred-in-place", "descriptions-loaded-twice"))]
+                          "sticks-out", "overlaps-fixed-cell", "covers-a-cell-completely", "tiny-die", "hard-module-recentred-in-place", "descriptions-loaded-twice", "fixed-module-released-before-the-die-was-built"))]
